@@ -6,5 +6,6 @@ CONSTANTS
   HookBeforeQuitCheck = TRUE
   Locals = FALSE
   Triggers = FALSE
+  Decodes = FALSE
   QuitWhen = "dispatched"
 CHECK_DEADLOCK FALSE
